@@ -68,6 +68,34 @@ let vlist_case (run : vtok list -> vres list) (line : string) : string =
     let rs = run (List.map vtok_of_string toks) in
     String.concat " " (id :: List.map string_of_vres rs)
 
+(* ---------- codec (C19) ---------- *)
+let hexval c = match c with
+  | '0'..'9' -> Char.code c - 48 | 'a'..'f' -> Char.code c - 87 | 'A'..'F' -> Char.code c - 55
+  | _ -> failwith "bad hex"
+let bytes_of_hex (s : string) : n list =
+  if s = "-" then [] else
+  List.init (String.length s / 2) (fun i -> n_of_i64 (Int64.of_int (16 * hexval s.[2*i] + hexval s.[2*i+1])))
+let hex_of_bytes (l : n list) : string =
+  if l = [] then "-" else
+  String.concat "" (List.map (fun b -> Printf.sprintf "%02x" (Int64.to_int (i64_of_n b))) l)
+
+let codec_case (line : string) : string =
+  match split_ws line with
+  | [id; "m"; sq; tx; cid; key] ->
+    (match run_marshal { r_seq = n_of_string sq; r_tx = bytes_of_hex tx; r_cid = bytes_of_hex cid; r_key = bytes_of_hex key } with
+     | CBytes b -> id ^ " b " ^ hex_of_bytes b
+     | _ -> id ^ " err")
+  | [id; "u"; hx] ->
+    (match run_unmarshal (bytes_of_hex hx) with
+     | CRec r -> String.concat " " [id; "r"; string_of_n r.r_seq; hex_of_bytes r.r_tx; hex_of_bytes r.r_cid; hex_of_bytes r.r_key]
+     | _ -> id ^ " err")
+  | [id; "F"; hx] -> id ^ " s " ^ hex_of_bytes (uuid_format (bytes_of_hex hx))
+  | [id; "P"; hx] ->
+    (match uuid_parse (bytes_of_hex hx) with
+     | Some b -> id ^ " b " ^ hex_of_bytes b
+     | None -> id ^ " err")
+  | _ -> failwith ("bad codec case: " ^ line)
+
 let () =
   let cmd = Sys.argv.(1) in
   let lines = read_lines Sys.argv.(2) in
@@ -75,6 +103,7 @@ let () =
     match cmd with
     | "vlist" -> vlist_case vrun
     | "vlist-spec" -> vlist_case vrun_spec
+    | "codec" -> codec_case
     | _ -> failwith ("unknown command " ^ cmd)
   in
   List.iter (fun l -> if String.trim l <> "" && l.[0] <> '#' then print_endline (f l)) lines
